@@ -1,0 +1,40 @@
+// SPDX-FileCopyrightText: 2022-present Intel Corporation
+//
+// SPDX-License-Identifier: Apache-2.0
+
+//go:build verif
+
+// Verification hooks: constructors and wrappers used only by the external verification harness
+// (built with -tags verif).  Nothing here changes the behaviour of the package.
+
+package proposal
+
+import (
+	configapi "github.com/onosproject/onos-api/go/onos/config/v2"
+	"github.com/onosproject/onos-config/pkg/pluginregistry"
+	"github.com/onosproject/onos-config/pkg/southbound/gnmi"
+	"github.com/onosproject/onos-config/pkg/store/topo"
+	"github.com/onosproject/onos-config/pkg/store/v2/configuration"
+	proposalstore "github.com/onosproject/onos-config/pkg/store/v2/proposal"
+	gpb "github.com/openconfig/gnmi/proto/gnmi"
+)
+
+// NewReconcilerForVerif returns the proposal reconciler so that single Reconcile steps can be driven
+func NewReconcilerForVerif(topo topo.Store, conns gnmi.ConnManager, proposals proposalstore.Store, configurations configuration.Store, pluginRegistry pluginregistry.PluginRegistry) *Reconciler {
+	return &Reconciler{conns: conns, topo: topo, proposals: proposals, configurations: configurations, pluginRegistry: pluginRegistry}
+}
+
+// NewWatchersForVerif returns the watchers of the proposal controller
+func NewWatchersForVerif(proposals proposalstore.Store, configurations configuration.Store) (*Watcher, *ConfigurationWatcher) {
+	return &Watcher{proposals: proposals}, &ConfigurationWatcher{configurations: configurations}
+}
+
+// ApplyChangeToConfigForVerif exposes applyChangeToConfig
+func ApplyChangeToConfigForVerif(values map[string]*configapi.PathValue, path string, value *configapi.PathValue) (string, *configapi.PathValue) {
+	return applyChangeToConfig(values, path, value)
+}
+
+// IsModelDataCompatibleForVerif exposes isModelDataCompatible
+func IsModelDataCompatibleForVerif(pluginDataModels []*gpb.ModelData, targetDataModels []*gpb.ModelData) bool {
+	return isModelDataCompatible(pluginDataModels, targetDataModels)
+}
